@@ -421,6 +421,39 @@ theorem c09_accuracy_up_upper (fullMs : Nat) (hF : 10 ≤ fullMs) (p0 : Nat) (hp
   have := r.2
   omega
 
+theorem run_carry_up (fullMs : Nat) (hF : 10 ≤ fullMs) : ∀ (dts : List Nat) (s : Mv), 100 ≤ s.pos ∧ s.pos ≤ 10100 →
+    dts ≠ [] → 100 < (mvRun (rsCfg fullMs true) s dts).pos →
+    10000 * (mvRun (rsCfg fullMs true) s dts).time < fullMs * 1000 + 10000 := by
+  intro dts
+  induction dts with
+  | nil => intro s _ h; exact absurd rfl h
+  | cons dt dts ih =>
+    intro s h _ hlt
+    unfold mvRun at hlt ⊢
+    have hr := c09_pos_range_mono (rsCfg fullMs true) { s with time := s.time + dt } h
+    cases dts with
+    | nil =>
+      simp only [mvRun] at hlt ⊢
+      exact (tick_up fullMs hF s dt h).2.2 hlt
+    | cons d2 ds => exact ih (mvTick (rsCfg fullMs true) s dt) ⟨hr.1, hr.2.1⟩ (by simp) hlt
+
+/-- C09 (opening, lower bound): 10⁴·T < (p₀ − p)·F + F + 10⁴ while the upper end stop is not reached -/
+theorem c09_accuracy_up_lower (fullMs : Nat) (hF : 10 ≤ fullMs) (p0 : Nat) (hp : 100 ≤ p0 ∧ p0 ≤ 10100)
+    (dts : List Nat) (hne : dts ≠ [])
+    (hlt : 100 < (mvRun (rsCfg fullMs true) { pos := p0, tilt := 0, time := 0 } dts).pos) :
+    10000 * sum dts <
+      (p0 - (mvRun (rsCfg fullMs true) { pos := p0, tilt := 0, time := 0 } dts).pos) * (fullMs * 1000) + fullMs * 1000 + 10000 := by
+  have r := run_up fullMs hF dts { pos := p0, tilt := 0, time := 0 } hp
+  have hc := run_carry_up fullMs hF dts { pos := p0, tilt := 0, time := 0 } hp hne hlt
+  have hmono := run_mono_up fullMs dts { pos := p0, tilt := 0, time := 0 } hp
+  unfold psiUp at r
+  simp only at r hmono
+  generalize mvRun (rsCfg fullMs true) { pos := p0, tilt := 0, time := 0 } dts = q at *
+  have e : (10100 - q.pos) * (fullMs * 1000) = (10100 - p0) * (fullMs * 1000) + (p0 - q.pos) * (fullMs * 1000) := by
+    rw [← Nat.add_mul]; congr 1; omega
+  have := r.1
+  omega
+
 /-- non-vacuity: 12.345 s closing time, 7 irregular callbacks from fully open -/
 example : (mvRun (rsCfg 12345 false) { pos := 100, tilt := 0, time := 0 } [10000, 10000, 7000, 250000, 1000, 12000000, 5000]).pos = 10049 := by
   decide
